@@ -215,11 +215,11 @@ func c20Random(c *fw.Ctx, idx int) {
 		}
 		c.Count("sequences_of_250_to_3000_points")
 	}
-	if r.Chance(1, 1500) {
+	if r.Chance(1, 1000) {
 		// tens of thousands of points (an interval of more than 8192 or 16384 points
 		// is where a scan might be split up), mostly straight with the odd spike
-		n = []int{8192, 8193, 8194, 8195, 10001, 16385, 16386, 16387, 20000, 32770}[r.Intn(10)] + r.Intn(4)
-		c.Count("sequences_of_8192_to_32773_points")
+		n = []int{8192, 8193, 8194, 8195, 10001, 16385, 16386, 16387, 20000, 32770, 65536, 65537, 65538, 65540, 65541, 131074}[r.Intn(16)] + r.Intn(4)
+		c.Count("sequences_of_8192_to_131077_points")
 	}
 	stride := r.Range(2, 5)
 	pts := make([][2]float64, 0, n)
@@ -358,6 +358,56 @@ func c20Burst(c *fw.Ctx, idx int) {
 	}
 	old := debug.SetGCPercent(-1)
 	defer debug.SetGCPercent(old)
+	if idx%8 == 5 {
+		// a burst of 140,000 calls, nearly all of them on tiny lines; 150-point
+		// zig-zags (every point is kept) are followed 65,534 .. 65,537 calls later
+		// by straight 150-point lines (two points are kept): whatever a call leaves
+		// in memory that later calls reuse has every counter width up to 16 bits to wrap in
+		zig := func(straight bool) line {
+			flat := make([]float64, 0, 300)
+			for k := 0; k < 150; k++ {
+				y := 0.0
+				if !straight && k%2 == 1 {
+					y = 10
+				}
+				flat = append(flat, float64(k), y)
+			}
+			return line{flat: flat, stride: 2, thr: 1}
+		}
+		sched := map[int]*line{}
+		for m := 0; m < 20; m++ {
+			base := 50 + 37*m
+			z := zig(false)
+			sched[base] = &z
+			for _, d := range []int{65534, 65535, 65536, 65537, 2 * 65535, 2 * 65536} {
+				st := zig(true)
+				sched[base+d] = &st
+			}
+		}
+		for _, l := range sched {
+			if c.Guard("panic", func() { l.first = fmt.Sprint(xy.SimplifyFlatCoords(append([]float64{}, l.flat...), l.thr, l.stride)) }) {
+				return
+			}
+		}
+		c.SetInput(map[string]any{"burst": "140000 calls: lines of 3..12 points, 150-point zig-zags at calls 50+37m, straight 150-point lines 65534..65537 and 131070, 131072 calls after each"})
+		for i := 0; i < 140000; i++ {
+			l := &lines[r.Intn(30)]
+			if sl, ok := sched[i]; ok {
+				l = sl
+			}
+			var got string
+			if c.Guard("panic", func() { got = fmt.Sprint(xy.SimplifyFlatCoords(l.flat, l.thr, l.stride)) }) {
+				return
+			}
+			if got != l.first {
+				c.Fail("history-dependent", "call %d of a burst of 140000: simplifying a line of %d points (threshold %g) gave %s, a call on its own gives %s", i, len(l.flat)/l.stride, l.thr, clipStr(got, 200), clipStr(l.first, 200))
+				return
+			}
+		}
+		c.Eval(140000)
+		c.Count("bursts_of_140000_calls")
+		return
+	}
 	for i := 0; i < 4000; i++ {
 		k := r.Intn(30)
 		if r.Chance(1, 24) {
